@@ -1,11 +1,21 @@
 from __future__ import annotations
 
+from typing import Any
+
 from pycoin.satoshi.flags import SIGHASH_FORKID
 
 from ..bitcoin.SolutionChecker import BitcoinSolutionChecker
 
 
 class BcashSolutionChecker(BitcoinSolutionChecker):
+    def _make_sighash_f(self, tx_in_idx: int) -> Any:
+        def sig_for_hash_type_f(hash_type: int, sig_blobs: list[bytes], vm: Any) -> int:
+            # signatures that use SIGHASH_FORKID (the only ones accepted) are not removed from the
+            # script code: the replay-protected digest commits to the script as it stands
+            return self._signature_hash(vm.script[vm.begin_code_hash :], tx_in_idx, hash_type)
+
+        return sig_for_hash_type_f
+
     def _signature_hash(self, tx_out_script: bytes, unsigned_txs_out_idx: int, hash_type: int) -> int:  # type: ignore[override]
         """
         Return the canonical hash for a transaction. We need to
